@@ -330,6 +330,7 @@ def run(rep):
     c20trace.check(rep, cross)
     check_nested_source_file(rep, cross)
     lexk.check(rep, cross, 'C20')
+    lexk.check_checkpoint(rep, cross, 'C20')
     rep.cross = driver.cross_check(cross, 300, 'ALL', rep.tier, rep.seed)
     rep.extra['cross_checked_obligations'] = len(cross)
 
